@@ -48,7 +48,7 @@ def run_programs(ctx, progs, option_sets, found_by):
 
 
 def run(ctx):
-    progs = rc.programs(ctx, ctx.scale(900, None), ctx.scale(200, 3000))
+    progs = rc.programs(ctx, ctx.scale(900, None), ctx.scale(200, 3000), private=True)
     spec_validation(ctx, progs[:ctx.scale(400, 3000)])
     rc.assigner_correspondence(ctx, progs[:ctx.scale(700, 8000)], [(True, False, False), (True, True, True), (False, True, False)])
     osets = rc.RENAME_OPTION_SETS if ctx.tier == 'thorough' else [rc.RENAME_OPTION_SETS[i] for i in (0, 2, 4)]
